@@ -36,15 +36,15 @@ Section Sound.
   Lemma direct1_subj v t x : otype x = ft -> le3 (direct1 W v t) (direct1 (SObj x) v t) = true.
   Proof.
     intros Hx. unfold direct1, W. destruct (t_sub t) as [y|ty|o' r']; simpl.
-    - apply le3_F_l.
+    - first [reflexivity | apply le3_F_l].
     - destruct (N.eqb ty ft) eqn:E.
       + apply N.eqb_eq in E. subst ty. rewrite Hx, N.eqb_refl. apply le3_refl.
-      + apply le3_F_l.
+      + first [reflexivity | apply le3_F_l].
     - apply le3_refl.
   Qed.
 
   Lemma ttu1_subj v c t x : le3 (ttu1 m W v c t) (ttu1 m (SObj x) v c t) = true.
-  Proof. unfold ttu1, W. destruct (t_sub t); simpl; apply le3_refl. Qed.
+  Proof. unfold ttu1, W. destruct (t_sub t); simpl; first [reflexivity | apply le3_refl]. Qed.
 
   Lemma eval_rw_subj v o r x rw :
     otype x = ft -> positive_rw rw = true ->
@@ -132,7 +132,7 @@ Section Sound.
     (fix go (l : list rewrite) : list lres :=
        match l with [] => [] | x :: l' => expand_rw m conds store ft dispatch o x r :: go l' end) l
     = map (fun x => expand_rw m conds store ft dispatch o x r) l.
-  Proof. induction l as [|x l IH]; simpl; auto. rewrite IH. reflexivity. Qed.
+  Proof. induction l as [|x l IH]; [reflexivity|]. cbn [map]. rewrite <- IH. reflexivity. Qed.
 
   Lemma Forall2_map_r {A B C} (P : A -> C -> Prop) (f : B -> C) la lb :
     Forall2 P la (map f lb) -> Forall2 (fun a b => P a (f b)) la lb.
